@@ -78,7 +78,7 @@ func (e *Eval) evalCallExpr(c *ast.CallExpr, env *Env) (Obj, error) {
 	case *funcval:
 	case *bfuncval:
 	default:
-		return nil, fmt.Errorf("invalid function call %v", c.Fun.String())
+		return nil, fmt.Errorf("invalid function call %v", calleeName(c.Fun))
 	}
 
 	if bfn, ok := v.(*bfuncval); ok { // is built-in
@@ -88,7 +88,7 @@ func (e *Eval) evalCallExpr(c *ast.CallExpr, env *Env) (Obj, error) {
 	fn := v.(*funcval)
 	// check number of param matches
 	if len(c.Args) != len(fn.Args) {
-		return nil, fmt.Errorf("unmatched number of params for fn %v", c.Fun.String())
+		return nil, fmt.Errorf("unmatched number of params for fn %v", calleeName(c.Fun))
 	}
 	// params are just variables assigned to a local env
 	local := NewEnv(env)
@@ -109,8 +109,19 @@ func (e *Eval) evalCallExpr(c *ast.CallExpr, env *Env) (Obj, error) {
 	case *null:
 		return &null{}, nil
 	default:
-		return nil, fmt.Errorf("fn %v returned an invalid type; got %v", c.Fun.String(), res.Inspect())
+		return nil, fmt.Errorf("fn %v returned an invalid type; got %v", calleeName(c.Fun), res.Inspect())
 	}
+}
+
+// calleeName names the called expression in an error message. Only an identifier is spelled
+// out: printing an arbitrary expression with String() dereferences nil on trees the parser
+// itself builds (a function literal containing a switch without subject, a bare return or an
+// empty statement), which turned an arity error into a crash.
+func calleeName(f ast.Expr) string {
+	if id, ok := f.(*ast.Ident); ok {
+		return id.Value
+	}
+	return "<expression>"
 }
 
 func (e *Eval) evalUnaryExpr(b *ast.UnaryExpr, env *Env) (Obj, error) {
